@@ -45,7 +45,11 @@ func NewCanary(dir, tag string) *Canary {
 	return c
 }
 
-func (c *Canary) secretText() string { return "(def c08leak \"" + c.TokRead + "\")\n" }
+// The secret file is zygo text: compiling it binds c08leak, running it prints the token (so that a
+// read is visible even when the interpreter that compiled it is thrown away, e.g. at macro-expansion time).
+func (c *Canary) secretText() string {
+	return "(def c08leak \"" + c.TokRead + "\")\n(println \"" + c.TokRead + "\")\n"
+}
 
 // Install (re)creates the canary world. Only paths below c.Dir are touched.
 func (c *Canary) Install() error {
